@@ -142,7 +142,7 @@ fn gen_case(t: &mut Tape) -> Vec<u8> {
 pub fn run(r: &mut Runner) -> &'static str {
     r.rule = "inputs: accepted v1 lines - TCP4 / TCP6 in every spelling, UNKNOWN with no text, short text, text up to exactly 107 bytes, runs of spaces, non-ASCII text - with and without trailing bytes; borrowed, owned and via &str. \
               oracle: identities against the RAW line: protocol() == second field == keyword of the decoded kind; addresses_str() == the bytes between keyword and CRLF minus one leading space; \
-              'PROXY' SP protocol [SP] addresses_str CRLF == the line == to_string() == header. non-trivial = every accepted line; distinct by SipHash"
+              'PROXY' SP protocol [SP] addresses_str CRLF == the line == to_string() == header. non-trivial = every accepted line; distinct by SipHash Added later: UNKNOWN text made of protocol words, clone and clone_from copies onto headers of each kind, chains."
         .into();
     r.assumptions.push("conditioned on acceptance by the implementation (C01 owns acceptance)".into());
     let n = r.n(250_000, 6_000_000);
